@@ -62,6 +62,17 @@ func CidOf(seed []byte) cid.Cid {
 	return cid.NewCidV1(0x71, h)
 }
 
+// Cid returns the CID of a link value: parsed from S when set (values
+// obtained through FromNode), derived from the seed X otherwise.
+func (v V) Cid() cid.Cid {
+	if v.S != "" {
+		if c, err := cid.Decode(v.S); err == nil {
+			return c
+		}
+	}
+	return CidOf(v.X)
+}
+
 // Node builds the go-ipld-prime node. Map entries are inserted in the order given.
 func (v V) Node() ipld.Node {
 	n, err := qp.BuildMap(basicnode.Prototype.Any, 1, func(ma datamodel.MapAssembler) {
@@ -97,7 +108,7 @@ func (v V) assemble() qp.Assemble {
 		}
 		return qp.Bytes(b)
 	case "link":
-		return qp.Link(cidlink.Link{Cid: CidOf(v.X)})
+		return qp.Link(cidlink.Link{Cid: v.Cid()})
 	case "list":
 		return qp.List(int64(len(v.L)), func(la datamodel.ListAssembler) {
 			for _, e := range v.L {
